@@ -4,6 +4,7 @@ import (
 	"bytes"
 	"encoding/json"
 	"fmt"
+	"net/textproto"
 	"reflect"
 	"regexp"
 	"strings"
@@ -34,6 +35,65 @@ func errClass(err error) string {
 	s = quotedRe.ReplaceAllString(s, "Q")
 	s = digitsRe.ReplaceAllString(s, "N")
 	return kit.KeyPart(s)
+}
+
+var tokenRe = regexp.MustCompile("\"([^\"]*)\"|`([^`]*)`")
+
+// suspectShape names the coarse shape of the field an error message points at (so that a
+// completeness key says which kind of field was refused), "?" if none can be identified.
+func suspectShape(sd *structD, err error) string {
+	var exact, loose *fieldD
+	for _, m := range tokenRe.FindAllStringSubmatch(err.Error(), -1) {
+		tok := m[1] + m[2]
+		if i := strings.LastIndex(tok, "."); i >= 0 {
+			tok = tok[i+1:]
+		}
+		if i := strings.Index(tok, "["); i >= 0 {
+			tok = tok[:i]
+		}
+		if tok == "" {
+			continue
+		}
+		var walk func(fs []*fieldD)
+		walk = func(fs []*fieldD) {
+			for _, f := range fs {
+				if !f.Embedded {
+					k := f.key()
+					switch {
+					case exact == nil && (k == tok || textproto.CanonicalMIMEHeaderKey(k) == tok || strings.ToLower(k) == tok):
+						exact = f
+					case loose == nil && strings.EqualFold(k, tok):
+						loose = f
+					}
+				}
+				if f.Sub != nil {
+					walk(f.Sub.Fields)
+				}
+				if f.Elem != nil && f.Elem.Sub != nil {
+					walk(f.Elem.Sub.Fields)
+				}
+			}
+		}
+		walk(sd.Fields)
+	}
+	pick := exact
+	if pick == nil {
+		pick = loose
+	}
+	if pick == nil {
+		return "?"
+	}
+	sh := "scalar"
+	if !pick.scalar() {
+		sh = pick.Kind.String()
+	}
+	if pick.Ptr > 0 {
+		sh = "pointer-to-" + sh
+	}
+	if pick.Elem != nil && pick.Elem.Ptr > 0 {
+		sh += "-of-pointer"
+	}
+	return sh
 }
 
 type evalReq struct {
@@ -100,7 +160,7 @@ func (h *harness) evalOne(c *kit.Case, q *evalReq) {
 	default:
 		kit.Obs("rejected", 1)
 		if ref.acceptDemanded() {
-			c.Viol("C08/valid-input-rejected/"+q.ctxName+"/"+errClass(err), "input meets every declared constraint with correctly typed values, yet: "+err.Error(), witness(nil))
+			c.Viol("C08/valid-input-rejected/"+q.ctxName+"/"+errClass(err)+"/"+suspectShape(q.sd, err), "input meets every declared constraint with correctly typed values, yet: "+err.Error(), witness(nil))
 		} else if len(ref.must) > 0 {
 			kit.Obs("rejected_and_reference_rejects", 1)
 		} else {
